@@ -2,6 +2,7 @@ package parser
 
 import (
 	"fmt"
+	"math"
 	"strconv"
 	"strings"
 
@@ -455,6 +456,16 @@ func (p *Parser) parseGroupedExpression() ast.Node {
 }
 
 func (p *Parser) parsePrefixExpression() ast.Node {
+	if p.curTokenIs(token.MINUS) && p.peekTokenIs(token.INT) {
+		// -9223372036854775808 is an integer even though 9223372036854775808 alone is not.
+		lit := "-" + p.peekToken.Literal()
+		if v, err := strconv.ParseInt(lit, 0, 64); err == nil && v == math.MinInt64 {
+			p.nextToken()
+			res := &ast.IntegerLiteral{Val: v}
+			res.Token = token.Intern(token.INT, lit)
+			return res
+		}
+	}
 	expression := &ast.PrefixExpression{}
 	expression.Token = p.curToken
 
